@@ -7,6 +7,7 @@ import (
 	"time"
 
 	"verif/explore"
+	"verif/vrt"
 
 	"github.com/tsuna/gohbase"
 	"github.com/tsuna/gohbase/hrpc"
@@ -479,11 +480,141 @@ func c08Direct(c *Ctx) {
 	}
 }
 
+// ---- concurrent puts / dels: every schedule, linearizability against the model
+
+type c08ConcObs struct {
+	final   []int
+	results []c08Res
+	panicky bool
+}
+
+func c08ConcUnits(thorough bool) []*explore.Unit {
+	cfg := c08Cfg{name: "concurrent", bounds: []string{"b", "d", "f"}, b2: []string{"d"}, ids: []uint64{1, 2}}
+	run := &c08Run{cfg: cfg, univ: c08Universe(cfg.bounds, cfg.b2, cfg.ids)}
+	run.byName = map[string]int{}
+	for i, u := range run.univ {
+		run.names = append(run.names, u.name())
+		run.byName[string(u.name())] = i
+	}
+	nt := 0
+	for i, u := range run.univ {
+		if u.table == "t" {
+			nt = i + 1
+		}
+	}
+	inits := [][]int{nil}
+	for i := 0; i < nt; i += 3 {
+		inits = append(inits, []int{i})
+	}
+	var units []*explore.Unit
+	step := 1
+	if !thorough {
+		step = 2
+	}
+	for _, init := range inits {
+		for a := 0; a < nt; a += step {
+			for b := a + 1; b < nt; b += step {
+				if !run.univ[a].intersects(run.univ[b]) {
+					continue // disjoint puts commute trivially
+				}
+				opsets := [][]c08Op{{{true, a}, {true, b}}}
+				if thorough || (a+b)%5 == 0 {
+					opsets = append(opsets, []c08Op{{true, a}, {true, b}, {false, a}})
+				}
+				for _, ops := range opsets {
+					init, ops := init, ops
+					out := &c08ConcObs{}
+					name := fmt.Sprintf("conc|init=%v|ops=%v", run.descr(init), func() []string {
+						var s []string
+						for _, o := range ops {
+							k := "del"
+							if o.put {
+								k = "put"
+							}
+							s = append(s, k+" "+run.univ[o.r].String())
+						}
+						return s
+					}())
+					u := &explore.Unit{Name: name, Bound: 2, Opt: vrt.Options{MaxSteps: 5000}}
+					u.Body = func() {
+						*out = c08ConcObs{results: make([]c08Res, len(ops))}
+						var pre []c08Op
+						for _, i := range init {
+							pre = append(pre, c08Op{true, i})
+						}
+						vc, live := run.build(pre)
+						fin := make(chan int, len(ops))
+						for i, op := range ops {
+							i, op := i, op
+							vrt.GoNamed(fmt.Sprintf("h:op%d", i), func() {
+								if op.put {
+									obj := run.mk(op.r)
+									ov, rep := vc.Put(obj)
+									out.results[i] = c08Res{replaced: rep, obj: obj}
+									for _, o := range ov {
+										out.results[i].overlaps = append(out.results[i].overlaps, run.idx(o))
+									}
+								} else {
+									obj, ok := live[op.r]
+									if !ok {
+										obj = run.mk(op.r)
+									}
+									out.results[i] = c08Res{deleted: vc.Del(obj), obj: obj}
+								}
+								vrt.Send(fin, i)
+							})
+						}
+						for range ops {
+							vrt.Recv(fin)
+						}
+						out.final, _ = run.state(vc)
+					}
+					u.Check = func(res *vrt.Result) *explore.Finding {
+						if f := baseFinding(res); f != nil {
+							f.Msg += "\n" + name
+							return f
+						}
+						if res.Deadlock {
+							return &explore.Finding{Class: "cache-operation-blocked", Msg: fmt.Sprintf("%v\n%s", res.Blocked, name)}
+						}
+						for i := 0; i < len(out.final); i++ {
+							for j := i + 1; j < len(out.final); j++ {
+								if run.univ[out.final[i]].intersects(run.univ[out.final[j]]) {
+									return &explore.Finding{Class: "overlapping-regions-cached-after-concurrent-puts",
+										Msg: fmt.Sprintf("%s and %s are both cached\n%s", run.univ[out.final[i]], run.univ[out.final[j]], name)}
+								}
+							}
+						}
+						// the outcome must equal that of some sequential order of the operations
+						perms := factorial(len(ops))
+						for k := 0; k < perms; k++ {
+							st := append([]int{}, init...)
+							sort.Ints(st)
+							for _, oi := range permutation(len(ops), k) {
+								st = run.model(st, ops[oi])
+							}
+							if sameSet(st, out.final) {
+								return nil
+							}
+						}
+						return &explore.Finding{Class: "concurrent-cache-outcome-not-linearizable",
+							Msg: fmt.Sprintf("final cache %v is not the result of any sequential order\n%s", run.descr(out.final), name)}
+					}
+					u.Sig = func() string { return fmt.Sprint(len(out.final)) }
+					units = append(units, u)
+				}
+			}
+		}
+	}
+	return units
+}
+
 func init() {
 	register(&Prop{
+		Units: c08ConcUnits,
 		ID: "C08", Level: "model_checking",
 		Technique: "explicit-state breadth-first search over the real location cache (every transition executed on the implementation) against an interval model",
-		Rule: "state = canonical set of cached regions from a universe of all intervals over 3-4 boundary points x 2-3 ids for table t plus a prefix-named table t1; transitions = put(r)/del(r) for every r, each executed on a real keyRegionCache rebuilt by replaying the shortest path; repeated with 0..130 filler regions of other tables before/after to move the entries across B-tree page boundaries. Non-trivial = transition from a non-empty state.",
+		Rule: "(concurrent part: every pair of intersecting puts, some with a delete, from several initial states, all schedules with <=2 deviations, outcome must be linearizable and overlap-free) state = canonical set of cached regions from a universe of all intervals over 3-4 boundary points x 2-3 ids for table t plus a prefix-named table t1; transitions = put(r)/del(r) for every r, each executed on a real keyRegionCache rebuilt by replaying the shortest path; repeated with 0..130 filler regions of other tables before/after to move the entries across B-tree page boundaries. Non-trivial = transition from a non-empty state.",
 		Assumptions: []string{"regions with equal ids and different names: winner left open by the statement, only the invariant is required", "universe bounded to 4-5 boundary points, 2-3 ids, two tables plus fillers"},
 		Quick:       60 * time.Second, Thorough: 12 * time.Minute,
 		Direct: c08Direct,
